@@ -39,6 +39,7 @@ import (
 	evmtypes "github.com/palomachain/paloma/v2/x/evm/types"
 	metrixtypes "github.com/palomachain/paloma/v2/x/metrix/types"
 	skywaytypes "github.com/palomachain/paloma/v2/x/skyway/types"
+	valsettypes "github.com/palomachain/paloma/v2/x/valset/types"
 	"verifharness/drv"
 )
 
@@ -582,6 +583,51 @@ func (c *chain) probe(kind string) (stable bool, n int, log string) {
 					})
 				}
 			}
+		}
+	case "chaininfojail":
+		// the sweep of the paloma end blocker (every 303 blocks) on a discarded branch: who is jailed and with which stored reason
+		times = 16
+		eval(func() []byte {
+			cc := cache()
+			err := e.App.PalomaKeeper.JailValidatorsWithMissingExternalChainInfos(cc)
+			var b bytes.Buffer
+			fmt.Fprintf(&b, "%v|", err)
+			vals, _ := e.App.StakingKeeper.GetAllValidators(cc)
+			for _, v := range vals {
+				va, err := sdk.ValAddressFromBech32(v.GetOperator())
+				if err != nil {
+					continue
+				}
+				r, _ := e.App.ValsetKeeper.GetValidatorJailReason(cc, &valsettypes.QueryGetValidatorJailReasonRequest{ValAddress: va})
+				fmt.Fprintf(&b, "%s:%v:%s|", v.GetOperator(), v.IsJailed(), r.GetReason())
+			}
+			return b.Bytes()
+		})
+	case "history":
+		// read-only queries for an OLDER height (what `palomad q ... --height h` does): metrics, queues, snapshot
+		for _, old := range []int64{c.w.height - 200, c.w.height} {
+			old := old
+			eval(func() []byte {
+				var b bytes.Buffer
+				for _, rq := range []struct {
+					path string
+					req  gogoproto.Message
+				}{
+					{"/palomachain.paloma.metrix.Query/Validators", &metrixtypes.Empty{}},
+					{"/palomachain.paloma.consensus.Query/MessagesInQueue", &consensustypes.QueryMessagesInQueueRequest{QueueTypeName: turnstoneQueue(chainA)}},
+					{"/palomachain.paloma.evm.Query/GetValsetByID", &evmtypes.QueryGetValsetByIDRequest{ValsetID: 0, ChainReferenceID: chainA}},
+				} {
+					bz, err := gogoproto.Marshal(rq.req)
+					must(err)
+					res, err := e.App.Query(c.ctx(), &abci.RequestQuery{Path: rq.path, Data: bz, Height: old})
+					if err != nil {
+						fmt.Fprintf(&b, "err:%v|", err)
+						continue
+					}
+					fmt.Fprintf(&b, "%d:%s:%x|", res.Code, res.Codespace, res.Value)
+				}
+				return b.Bytes()
+			})
 		}
 	case "uptime":
 		eval(func() []byte {
